@@ -19,7 +19,7 @@ ASSUMPTIONS = [
     'latitude L1 (listing order compared sorted; walk ordering constraint checked separately), L2 (cache-only directories masked), L3 (size of a directory)',
     'queries on the cache file\'s ancestor directories are not generated (their appearance is unspecified)',
 ]
-CFG = gen.cfg_with(probe_w=4, inner_probe=0.45, max_root=5, max_funcs=5, fail_after_nested_p=0.3, catch_p=0.9, call_w=4)
+CFG = gen.cfg_with(probe_w=4, inner_probe=0.45, max_root=5, max_funcs=5, fail_after_nested_p=0.3, catch_p=0.9, call_w=4, alt_roots_p=0.25)
 
 
 def program_strategy(cfg, cache):
